@@ -136,6 +136,178 @@ def _replay_boo(what, case, clause, model, seed):
     return {"ran": False, "failed": False, "error": "replay harness not written yet"}
 
 
-UNITS = [QlQl()]
+
+# ---- the neighbour / weight files: callee contract of read_neighbors (verified under C05) ----------------------------
+
+NEIGHBORFILE, WEIGHTSFILE = "neighbor.dat", "weights.dat"
+I_, R_ = z3.IntSort(), z3.RealSort()
+NB = z3.Function("NB", I_, I_, I_, I_)        # NB(frame, i, 0) = cn_i ;  NB(frame, i, 1+j) = zero-based index of the j-th neighbour
+WT = z3.Function("WT", I_, I_, I_, R_)        # WT(frame, i, 1+j) = weight of the j-th neighbour (0 beyond cn_i) ; WT(frame,i,0) = cn_i
+MAXCN = z3.Function("MAXCN", I_, I_)          # largest coordination number of the frame = number of neighbour columns returned
+
+
+def nb(s, i, k):
+    return sv.SV(NB(sv.znum(s), sv.znum(i), sv.znum(k)))
+
+
+def wt(s, i, k):
+    return sv.SV(WT(sv.znum(s), sv.znum(i), sv.znum(k)))
+
+
+def neighbour_file_facts(ctx, N, Nmax, weights=False):
+    """documented layout of the array returned by read_neighbors (docstring of read_neighbors, docs/neighbors.md):
+    column 0 = coordination number, 1 <= cn_i <= MAXCN(frame) <= Nmax; columns 1..cn_i zero-based particle indices in [0, N);
+    the unoccupied positions are padded with 0.  The property's quantifier: every particle has >= 1 neighbour."""
+    Nz, Mz = sv.znum(N), sv.znum(Nmax)
+    ctx.array_fact("NB", lambda s, i, k: z3.And(
+        NB(s, i, 0) >= 1, NB(s, i, 0) <= MAXCN(s), MAXCN(s) <= Mz,
+        z3.Implies(z3.And(k >= 1, k <= NB(s, i, 0)), z3.And(NB(s, i, k) >= 0, NB(s, i, k) < Nz)),
+        z3.Implies(k > NB(s, i, 0), NB(s, i, k) == 0)))
+    ctx.array_fact("MAXCN", lambda s: z3.And(MAXCN(s) >= 1, MAXCN(s) <= Mz))
+    if weights:
+        # "this file should be consistent with neighborfile": same coordination numbers; weights (e.g. Voronoi face areas) positive
+        ctx.array_fact("WT", lambda s, i, k: z3.And(
+            z3.Implies(z3.And(k >= 1, k <= NB(s, i, 0)), WT(s, i, k) > 0),
+            z3.Implies(k > NB(s, i, 0), WT(s, i, k) == 0),
+            WT(s, i, 0) == z3.ToReal(NB(s, i, 0))))
+
+
+def read_neighbors_summary(T):
+    """callee contract: read_neighbors(f, nparticle, Nmax) consumes the next frame of the file behind the handle f and returns
+    the (nparticle, 1 + MAXCN(frame)) array of that frame (int32 for a neighbour list, float for any other property file);
+    requires that the file still has a frame (frame < T) — consecutive calls deliver consecutive frames"""
+    def summ(interp, args, kwargs):
+        from pyvc.state import cur
+        f, npart = args[0], args[1]
+        path = interp.getattr(f, "path")
+        frame = interp.getattr(f, "frames_read")
+        cur().require(sv.and_(sv.cmp(">=", frame, 0), sv.cmp("<", frame, T)), "call:read_neighbors:pre:file-has-another-frame")
+        interp.setattr(f, "frames_read", A.simp(sv.add(frame, 1)))
+        cols = A.simp(sv.add(sv.SV(MAXCN(sv.znum(frame))), 1))
+        if path == NEIGHBORFILE:
+            return A.new_arr((npart, cols), A._memo(lambda idx: nb(frame, idx[0], idx[1])), "int")
+        if path == WEIGHTSFILE:
+            return A.new_arr((npart, cols), A._memo(lambda idx: wt(frame, idx[0], idx[1])), "float")
+        raise sv.EngineError(f"read_neighbors summary: unknown file {path!r}")
+    return summ
+
+
+def sph_harm_l_summary(interp, args, kwargs):
+    """callee contract (C08 Dispatch): sph_harm_l(l, theta, phi)[k] = Y_{l,k-l}(polar = theta, azimuth = phi), length 2l+1, l >= 1"""
+    from contracts.C08 import Y_abstract
+    from pyvc.state import cur
+    l, theta, phi = args
+    cur().require(sv.cmp(">=", l, 1), "call:sph_harm_l:pre:l>=1")
+    n = A.simp(sv.add(sv.mul(2, l), 1))
+    return A.new_arr((n,), A._memo(lambda idx: Y_abstract(l, A.simp(sv.sub(idx[0], l)), theta, phi)), "complex")
+
+
+def bond_angles(tr, n, i, j, p):
+    """(theta, phi) of the minimum-image bond from particle i to particle j in frame n"""
+    D = min_image(tr, n, i, j, p)
+    r = sv.sqrt(_sum([sv.mul(x, x) for x in D]))
+    return sv.arccos(sv.div(D[2], r)), sv.atan2(D[1], D[0])
+
+
+def Y_bond(inp, n, i, slot, k):
+    """Y_{l,k-l} of the bond from i to its neighbour in column `slot` (1-based column of the neighbour array)"""
+    from contracts.C08 import Y_abstract
+    th, ph = bond_angles(inp["tr"], n, i, nb(n, i, slot), inp["p"])
+    return Y_abstract(inp["l"], A.simp(sv.sub(k, inp["l"])), th, ph)
+
+
+def omega(inp, n, i, j):
+    """normalised weight of neighbour j (0-based) of particle i"""
+    cn = nb(n, i, 0)
+    if not inp["weighted"]:
+        return sv.div(1, cn)
+    tot = Sum(0, cn, lambda jj: wt(n, i, sv.add(1, jj)))
+    return sv.div(wt(n, i, sv.add(1, j)), tot)
+
+
+def q_spec(inp, n, i, k):
+    """eq. (1)/(2): q_lm(n,i) = sum_{j<cn} omega_j Y_lm(bond j)"""
+    cn = nb(n, i, 0)
+    return Sum(0, cn, lambda j: sv.mul(Y_bond(inp, n, i, A.simp(sv.add(1, j)), k), omega(inp, n, i, j)))
+
+
+def Q_spec(inp, qfn, n, i, k):
+    """eq. (3): Q_lm(n,i) = (q_lm(n,i) + sum_{j<cn} q_lm(n, nb_j)) / (1 + cn)"""
+    cn = nb(n, i, 0)
+    tot = sv.add(qfn(n, i, k), Sum(0, cn, lambda j: qfn(n, nb(n, i, A.simp(sv.add(1, j))), k)))
+    return sv.div(tot, sv.add(1, cn))
+
+
+class QlmQlm(Unit):
+    """boo_3d.qlm_Qlm(): returns (q, Q), both of shape (T, N, 2l+1), q[n,i,m+l] = eq. (1)/(2), Q[n,i,m+l] = eq. (3)"""
+    module = MOD
+    qualname = f"{CLS}.qlm_Qlm"
+    prop = "C09"
+    timeout = 30
+    solver_opts = {"rounds": 4}
+
+    def cases(self):
+        return ["unweighted", "weighted"]
+
+    @property
+    def summaries(self):
+        return self._summ
+
+    def __init__(self):
+        self._summ = {}
+
+    def setup(self, ctx, case):
+        from pyvc.libext.C09 import install_open
+        from contracts.C02 import _inv_spec
+        install_open()
+        weighted = case == "weighted"
+        tr = Traj(ctx, 3, same_cell=False)
+        T, N = tr.T, tr.N
+        l = _sym_l(ctx)
+        Nmax = ctx.int("Nmax")
+        ctx.assume(Nmax >= 1)
+        p = [ctx.int(f"ppp_{k}") for k in range(3)]
+        for k in range(3):
+            ctx.assume(sv.or_(sv.cmp("==", p[k], 0), sv.cmp("==", p[k], 1)))
+        ppp = A.from_nested(p, "int")
+        ctx.array_fact("HM", lambda s, a, b: sv.zb(sv.cmp("!=", _inv_spec(tr.Hm(sv.SV(s)), 3)[0], 0)))
+        neighbour_file_facts(ctx, N, Nmax, weights=weighted)
+        self._summ.clear()
+        self._summ.update(PBC)
+        self._summ["PyMatterSim.neighbors.read_neighbors.read_neighbors"] = read_neighbors_summary(T)
+        self._summ["PyMatterSim.utils.spherical_harmonics.sph_harm_l"] = sph_harm_l_summary
+        ctx.interp.summaries = dict(self._summ)
+        o = ctx.obj(MOD, CLS, dict(snapshots=tr.snapshots(), l=l, neighborfile=NEIGHBORFILE, weightsfile=WEIGHTSFILE if weighted else None,
+                                   ppp=ppp, Nmax=Nmax, nparticle=N))
+        inp = dict(tr=tr, T=T, N=N, l=l, p=p, weighted=weighted, M=A.simp(sv.add(sv.mul(2, l), 1)),
+                   n=ctx.int("n"), i=ctx.int("i"), k=ctx.int("k"))
+        return [o], {}, inp
+
+    def clause_names(self, case):
+        return ["returns-(q,Q)-of-shape-(T,N,2l+1)", "q_lm=weighted-mean-of-Y_lm-over-bonds", "Q_lm=(q_i+sum_j-q_j)/(1+cn)"]
+
+    def ensures(self, ctx, case, inp, out):
+        res = out.value
+        T, N, M, n, i, k = inp["T"], inp["N"], inp["M"], inp["n"], inp["i"], inp["k"]
+        ok = isinstance(res, tuple) and len(res) == 2 and all(
+            isinstance(a, A.Arr) and a.ndim == 3 and a.dtype == "complex" and A.dim_eq_syntactic(a.shape[0], T)
+            and A.dim_eq_syntactic(a.shape[1], N) and A.dim_eq_syntactic(a.shape[2], M) for a in res)
+        yield "returns-(q,Q)-of-shape-(T,N,2l+1)", bool(ok)
+        if not ok:
+            return
+        small, large = res
+        inr = sv.and_(sv.cmp(">=", n, 0), sv.cmp("<", n, T), sv.cmp(">=", i, 0), sv.cmp("<", i, N), sv.cmp(">=", k, 0), sv.cmp("<", k, M))
+        got = sv.as_cx(small.get((n, i, k)))
+        want = sv.as_cx(q_spec(inp, n, i, k))
+        yield "q_lm=weighted-mean-of-Y_lm-over-bonds", sv.implies(inr, sv.and_(sv.cmp("==", got.re, want.re), sv.cmp("==", got.im, want.im)))
+        gotQ = sv.as_cx(large.get((n, i, k)))
+        wantQ = sv.as_cx(Q_spec(inp, lambda a, b, c: q_spec(inp, a, b, c), n, i, k))
+        yield "Q_lm=(q_i+sum_j-q_j)/(1+cn)", sv.implies(inr, sv.and_(sv.cmp("==", gotQ.re, wantQ.re), sv.cmp("==", gotQ.im, wantQ.im)))
+
+    def replay(self, case, clause, model, seed):
+        return _replay_boo("qlm_Qlm", case, clause, model, seed)
+
+
+UNITS = [QlQl(), QlmQlm()]
 
 MANIFEST = {"text": "", "note": ""}
